@@ -360,6 +360,21 @@ class _FPCore2FPy:
 
         return self._visit(e.body, _Ctx(env=env, props=ctx.props, stmts=ctx.stmts))
 
+    def _visit_loop_cond(self, cond: fpc.Expr, env: dict[str, NamedId], ctx: _Ctx) -> tuple[Expr, list[Stmt]]:
+        """Compiles a `while` condition.  A condition that needs statements
+        (`let`, `!`, `if`, ...) is bound to a temporary before the loop, and the
+        returned statements recompute it at the end of every iteration."""
+        stmts: list[Stmt] = []
+        cond_e = self._visit(cond, _Ctx(env=env, props=ctx.props, stmts=stmts))
+        if not stmts:
+            return cond_e, []
+        t = self.gensym.fresh('t')
+        ctx.stmts.extend([*stmts, Assign(t, None, cond_e, None)])
+        again: list[Stmt] = []
+        cond_e = self._visit(cond, _Ctx(env=env, props=ctx.props, stmts=again))
+        again.append(Assign(t, None, cond_e, None))
+        return Var(t, None), again
+
     def _visit_whilestar(self, e: fpc.WhileStar, ctx: _Ctx) -> Expr:
         env = ctx.env
         for var, init, _ in e.while_bindings:
@@ -373,8 +388,7 @@ class _FPCore2FPy:
             ctx.stmts.append(stmt)
 
         # compile condition
-        cond_ctx = _Ctx(env=env, props=ctx.props, stmts=ctx.stmts)
-        cond_e = self._visit(e.cond, cond_ctx)
+        cond_e, recompute = self._visit_loop_cond(e.cond, env, ctx)
 
         # create loop body
         stmts: list[Stmt] = []
@@ -386,6 +400,7 @@ class _FPCore2FPy:
             stmts.append(stmt)
 
         # append while statement
+        stmts.extend(recompute)
         while_stmt = WhileStmt(cond_e, StmtBlock(stmts), None)
         ctx.stmts.append(while_stmt)
 
@@ -406,8 +421,7 @@ class _FPCore2FPy:
             ctx.stmts.append(stmt)
 
         # compile condition
-        cond_ctx = _Ctx(env=env, props=ctx.props, stmts=ctx.stmts)
-        cond_e = self._visit(e.cond, cond_ctx)
+        cond_e, recompute = self._visit_loop_cond(e.cond, env, ctx)
 
         # create loop body
         loop_env = dict(env)
@@ -430,6 +444,7 @@ class _FPCore2FPy:
             stmts.append(stmt)
 
         # append while statement
+        stmts.extend(recompute)
         while_stmt = WhileStmt(cond_e, StmtBlock(stmts), None)
         ctx.stmts.append(while_stmt)
 
